@@ -31,6 +31,8 @@ VERUS_OBLIGATION_ERRORS = [
     ("could not show termination", "decreases"),
     ("assertion not satisfied", "panic-free(assert)"),
     ("index out of bounds", "panic-free(index)"),
+    ("index in bounds", "panic-free(index)"),
+    ("precondition not met", "requires@callsite"),
     ("recommendation not met", None),  # recommends: note only
     ("possible truncation", "overflow"),
     ("unreachable", "panic-free(unreachable)"),
